@@ -370,4 +370,132 @@ theorem sum_set_getD (w : List Rat) (k : Nat) (hk : k < w.length) (v : Rat) :
       have := ih k (by simpa using hk)
       rw [add_assoc, this, add_assoc]
 
+/-! ### counting the links of the split network -/
+
+theorem length_filter_or_disjoint {α : Type} (l : List α) (p q : α → Bool)
+    (h : ∀ x ∈ l, ¬ (p x = true ∧ q x = true)) :
+    (l.filter fun x => p x || q x).length = (l.filter p).length + (l.filter q).length := by
+  induction l with
+  | nil => rfl
+  | cons x l ih =>
+    have ih' := ih (fun y hy => h y (List.mem_cons_of_mem _ hy))
+    have hx := h x (by simp)
+    simp only [List.filter_cons]
+    cases hp : p x <;> cases hq : q x <;> simp_all <;> omega
+
+theorem length_filter_eq_range (N k : Nat) (hk : k < N) :
+    ((List.range N).filter fun i => decide (i = k)).length = 1 := by
+  induction N with
+  | zero => omega
+  | succ N ih =>
+    rw [List.range_succ, List.filter_append, List.length_append]
+    by_cases h : k < N
+    · rw [ih h]
+      have : ¬ N = k := by omega
+      simp [this]
+    · have hk' : k = N := by omega
+      subst hk'
+      have : (List.range k).filter (fun i => decide (i = k)) = [] := by
+        rw [List.filter_eq_nil_iff]
+        intro i hi
+        rw [List.mem_range] at hi
+        simp; omega
+      rw [this]; simp
+
+/-- the index square of size `N + 1`: the old square, the new column, the new row, the corner -/
+theorem pairs_succ_perm (N : Nat) :
+    (pairs (N + 1) (N + 1)).Perm
+      (pairs N N ++ ((List.range N).map fun i => (i, N)) ++ ((List.range N).map fun j => (N, j))
+        ++ [(N, N)]) := by
+  rw [List.perm_ext_iff_of_nodup (nodup_pairs _ _)]
+  · intro p
+    obtain ⟨i, j⟩ := p
+    simp only [mem_pairs, List.mem_append, List.mem_map, List.mem_range, Prod.mk.injEq,
+      List.mem_singleton]
+    constructor
+    · intro ⟨hi, hj⟩
+      by_cases hi' : i < N <;> by_cases hj' : j < N
+      · exact Or.inl (Or.inl (Or.inl ⟨hi', hj'⟩))
+      · exact Or.inl (Or.inl (Or.inr ⟨i, hi', rfl, by omega⟩))
+      · exact Or.inl (Or.inr ⟨j, hj', by omega, rfl⟩)
+      · exact Or.inr ⟨by omega, by omega⟩
+    · rintro (((⟨hi, hj⟩ | ⟨_, h1, h2, h3⟩) | ⟨_, h1, h2, h3⟩) | ⟨h1, h2⟩) <;> constructor <;> omega
+  · refine List.Nodup.append (List.Nodup.append (List.Nodup.append (nodup_pairs _ _) ?_ ?_) ?_ ?_)
+      (List.nodup_singleton _) ?_
+    · exact List.Nodup.map (fun _ _ h => (Prod.mk.inj h).1) List.nodup_range
+    · intro p hp hq
+      rw [mem_pairs] at hp
+      simp only [List.mem_map, List.mem_range] at hq
+      obtain ⟨_, _, rfl⟩ := hq
+      exact absurd hp.2 (by simp)
+    · exact List.Nodup.map (fun _ _ h => (Prod.mk.inj h).2) List.nodup_range
+    · intro p hp hq
+      simp only [List.mem_map, List.mem_range] at hq
+      obtain ⟨_, _, rfl⟩ := hq
+      simp only [List.mem_append, mem_pairs, List.mem_map, List.mem_range, Prod.mk.injEq] at hp
+      rcases hp with ⟨h, _⟩ | ⟨_, h1, h2, _⟩ <;> omega
+    · intro p hp hq
+      simp only [List.mem_singleton] at hq
+      subst hq
+      simp only [List.mem_append, mem_pairs, List.mem_map, List.mem_range, Prod.mk.injEq] at hp
+      rcases hp with (⟨h, _⟩ | ⟨_, h1, h2, _⟩) | ⟨_, h1, _, h2⟩ <;> omega
+
+/-- **cells of the split relation**: the old cells, one per in-neighbour and one per
+out-neighbour of `k`, and the two cells of the link between the halves -/
+theorem cells_split_length (a : Nat → Nat → Bool) (N k : Nat) (hk : k < N) (hkk : a k k = false) :
+    (cells (N + 1) (splitRel a N k)).length
+      = (cells N a).length + ((List.range N).filter fun i => a i k).length
+        + ((List.range N).filter fun j => a k j).length + 2 := by
+  unfold cells
+  rw [((pairs_succ_perm N).filter _).length_eq]
+  simp only [List.filter_append, List.length_append, List.filter_map, List.length_map]
+  have h1 : (pairs N N).filter (fun p => splitRel a N k p.1 p.2)
+      = (pairs N N).filter fun p => a p.1 p.2 := by
+    apply List.filter_congr
+    intro p hp
+    rw [mem_pairs] at hp
+    unfold splitRel
+    have : ¬ ((p.1 = k ∧ p.2 = N) ∨ (p.1 = N ∧ p.2 = k)) := by omega
+    simp [this, hp.1, hp.2]
+  have h2 : (List.range N).filter ((fun p : Nat × Nat => splitRel a N k p.1 p.2) ∘ fun i => (i, N))
+      = (List.range N).filter fun i => decide (i = k) || a i k := by
+    apply List.filter_congr
+    intro i hi
+    rw [List.mem_range] at hi
+    show splitRel a N k i N = _
+    unfold splitRel
+    by_cases hik : i = k
+    · simp [hik]
+    · have : ¬ ((i = k ∧ N = N) ∨ (i = N ∧ N = k)) := by omega
+      rw [if_neg this]; simp [hi, hik]
+  have h3 : (List.range N).filter ((fun p : Nat × Nat => splitRel a N k p.1 p.2) ∘ fun j => (N, j))
+      = (List.range N).filter fun j => decide (j = k) || a k j := by
+    apply List.filter_congr
+    intro j hj
+    rw [List.mem_range] at hj
+    show splitRel a N k N j = _
+    unfold splitRel
+    by_cases hjk : j = k
+    · simp [hjk]
+    · have : ¬ ((N = k ∧ j = N) ∨ (N = N ∧ j = k)) := by omega
+      rw [if_neg this]; simp [hj, hjk]
+  have h4 : [(N, N)].filter (fun p : Nat × Nat => splitRel a N k p.1 p.2) = [] := by
+    have : splitRel a N k N N = false := by
+      unfold splitRel
+      have : ¬ ((N = k ∧ N = N) ∨ (N = N ∧ N = k)) := by omega
+      rw [if_neg this]; simp
+    simp [this]
+  rw [h1, h2, h3, h4]
+  rw [length_filter_or_disjoint _ (fun i => decide (i = k)) (fun i => a i k)
+      (fun i _ h => by
+        have := of_decide_eq_true h.1
+        subst this; rw [hkk] at h; exact Bool.false_ne_true h.2),
+    length_filter_or_disjoint _ (fun j => decide (j = k)) (fun j => a k j)
+      (fun j _ h => by
+        have := of_decide_eq_true h.1
+        subst this; rw [hkk] at h; exact Bool.false_ne_true h.2),
+    length_filter_eq_range N k hk]
+  simp only [List.length_nil]
+  omega
+
 end Pyunicorn.Repr
